@@ -18,12 +18,13 @@ from __future__ import annotations
 import ast
 from typing import Any
 
-from ..engine.absint import Interp, Obj, _Raise
+from ..engine.absint import Interp, Obj
 from ..engine.cfg import CFG, own_parts
 from ..engine.nandomain import F, NanInterp
 from ..engine.report import AnalysisError, Run
 from ..engine.resolver import ClassInfo, FuncInfo, Program, body_walk
-from ..engine.util import find_calls, method_call, u
+from ..engine.normalize import positional
+from ..engine.util import canon, method_call, u
 from ._c06_util import Flow, cmp_eval, lifted, pruned, spliced
 from .c13 import _self_fields, step_classes
 
@@ -56,79 +57,213 @@ def precedence_table(prog: Program) -> dict[str, int]:
     return out
 
 
-def peval(e: ast.AST, env: dict[str, Any], table: dict[str, int]) -> Any:
-    """Constant folding of the small expression language used by the decision list."""
+class _Top:
+    """The operator step on top of the build stack in the scenario under evaluation."""
+
+    def __init__(self, key: str) -> None:
+        self.key = key
+
+
+class _NonEmpty:
+    """len() of the (non-empty) build stack: only its relation to 0 / 1 is known."""
+
+    def _cmp(self, other: Any, at0: bool, at1: bool) -> bool:
+        if other == 0:
+            return at0
+        if other == 1:
+            return at1
+        raise Unknown("len(self._build_stack) compared with a constant other than 0 / 1")
+
+    def __gt__(self, o: Any) -> bool:
+        if o == 0:
+            return True
+        raise Unknown("len(self._build_stack) > n")
+
+    def __ge__(self, o: Any) -> bool:
+        return self._cmp(o, True, True)
+
+    def __lt__(self, o: Any) -> bool:
+        return self._cmp(o, False, False)
+
+    def __le__(self, o: Any) -> bool:
+        if o == 0:
+            return False
+        raise Unknown("len(self._build_stack) <= n")
+
+    def __eq__(self, o: Any) -> bool:  # type: ignore[override]
+        if o == 0:
+            return False
+        raise Unknown("len(self._build_stack) == n")
+
+    def __ne__(self, o: Any) -> bool:  # type: ignore[override]
+        if o == 0:
+            return True
+        raise Unknown("len(self._build_stack) != n")
+
+    __hash__ = None  # type: ignore[assignment]
+
+
+def peval(e: ast.AST, env: dict[str, Any], table: dict[str, int], top: Any = None,
+          call: Any = None) -> Any:
+    """Constant folding of the small expression language used by the shift/reduce decisions.
+    `top` is the stacked operator (while the stack is untouched); `call` interprets effectful calls."""
+    def ev(x: ast.AST) -> Any:
+        return peval(x, env, table, top, call)
+
     if isinstance(e, ast.Constant):
         return e.value
     if isinstance(e, ast.Name):
         if e.id in env:
             return env[e.id]
         raise Unknown(e.id)
-    if isinstance(e, ast.Call) and u(e.func) == "repr" and len(e.args) == 1:
-        return peval(e.args[0], env, table)
+    if isinstance(e, (ast.Tuple, ast.List, ast.Set)):
+        return tuple(ev(x) for x in e.elts)
+    if isinstance(e, ast.Call) and u(e.func) in ("repr", "str") and len(e.args) == 1 and not e.keywords:
+        v = ev(e.args[0])
+        return v.key if isinstance(v, _Top) else v
+    if isinstance(e, ast.Call) and u(e.func) == "len" and len(e.args) == 1 and u(e.args[0]) == "self._build_stack" and top is not None:
+        return _NonEmpty()
+    if isinstance(e, ast.Call) and u(e.func) == "bool" and len(e.args) == 1:
+        return bool(ev(e.args[0]))
     if isinstance(e, ast.Subscript) and u(e.value) == "_operator_precedence":
-        k = peval(e.slice, env, table)
+        k = ev(e.slice)
         if k not in table:
             raise Unknown(f"precedence of {k!r}")
         return table[k]
-    if isinstance(e, ast.Compare) and len(e.ops) == 1:
-        l, r = peval(e.left, env, table), peval(e.comparators[0], env, table)
-        op = e.ops[0]
-        return {ast.Lt: lambda: l < r, ast.LtE: lambda: l <= r, ast.Gt: lambda: l > r,
-                ast.GtE: lambda: l >= r, ast.Eq: lambda: l == r, ast.NotEq: lambda: l != r}[type(op)]()
+    if isinstance(e, ast.Subscript) and u(e.value) == "self._build_stack" and u(e.slice) == "-1" and top is not None:
+        return top
+    if isinstance(e, ast.Compare):
+        left = ev(e.left)
+        for op, right in zip(e.ops, e.comparators):
+            r = ev(right)
+            l = left.key if isinstance(left, _Top) and isinstance(op, (ast.In, ast.NotIn)) else left
+            fn = {ast.Lt: lambda: l < r, ast.LtE: lambda: l <= r, ast.Gt: lambda: l > r,
+                  ast.GtE: lambda: l >= r, ast.Eq: lambda: l == r, ast.NotEq: lambda: l != r,
+                  ast.In: lambda: l in r, ast.NotIn: lambda: l not in r,
+                  ast.Is: lambda: l is r, ast.IsNot: lambda: l is not r}.get(type(op))
+            if fn is None or isinstance(l, _Top) or isinstance(r, _Top):
+                raise Unknown(u(e))
+            if not fn():
+                return False
+            left = r
+        return True
     if isinstance(e, ast.BoolOp):
-        vals = [peval(v, env, table) for v in e.values]
-        return all(vals) if isinstance(e.op, ast.And) else any(vals)
+        is_and = isinstance(e.op, ast.And)
+        v: Any = is_and
+        for x in e.values:  # short-circuit, like Python
+            v = ev(x)
+            if bool(v) != is_and:
+                return v
+        return v
     if isinstance(e, ast.UnaryOp) and isinstance(e.op, ast.Not):
-        return not peval(e.operand, env, table)
-    if isinstance(e, ast.Attribute) and u(e) == "self._build_stack":
+        return not ev(e.operand)
+    if isinstance(e, ast.IfExp):
+        return ev(e.body) if ev(e.test) else ev(e.orelse)
+    if isinstance(e, ast.Attribute) and u(e) == "self._build_stack" and top is not None:
         return True  # non-empty in the scenario under evaluation
+    if isinstance(e, ast.Call) and call is not None:
+        return call(e)
     raise Unknown(u(e))
 
 
+class _Decided(Exception):
+    def __init__(self, result: str) -> None:
+        super().__init__(result)
+        self.result = result
+
+
 def decision(fn: FuncInfo, table: dict[str, int], prev: str, new: str) -> str:
-    """shift | reduce | discard for `new` arriving with `prev` on top of the operator stack."""
-    body = [s for s in fn.node.body if not (isinstance(s, ast.Expr) and isinstance(s.value, ast.Constant))]
-    if not body or not isinstance(body[0], ast.If):
-        raise AnalysisError(f"{fn.qual}: leading guard of the unwinding loop not found")
-    guard = body[0]
-    env = {"oper": new}
-    if not peval(guard.test, env, table):
-        return "shift"
-    pre = [s for s in guard.body if not isinstance(s, ast.While)]
-    loops = [s for s in guard.body if isinstance(s, ast.While)]
-    if len(loops) != 1:
-        raise AnalysisError(f"{fn.qual}: unwinding loop not found")
-    for s in pre:
-        if isinstance(s, ast.Assign) and isinstance(s.targets[0], ast.Name):
-            env[s.targets[0].id] = peval(s.value, env, table)
-    loop = loops[0]
-    for s in loop.body:
-        if isinstance(s, ast.Assign) and isinstance(s.targets[0], ast.Name):
-            if u(s.value).replace(" ", "") == "self._build_stack[-1]":
-                env[s.targets[0].id] = prev
+    """shift | reduce | reduce-and-stop | discard for `new` arriving with `prev` on top of the operator
+    stack: push_oper (private helpers spliced in) is interpreted on that scenario up to the end of the
+    first pass of its unwinding loop.  Any statement form is fine as long as it can be evaluated."""
+    if len(fn.params) < 2:
+        raise AnalysisError(f"{fn.qual}: operator parameter not found")
+    env: dict[str, Any] = {fn.params[1]: new}
+    st = {"pop": 0, "emit": 0, "loops": 0}
+    top = _Top(prev)
+
+    def cur_top() -> Any:
+        return top if st["pop"] == 0 else None
+
+    def call(c: ast.Call) -> Any:
+        if method_call(c, "self._build_stack", "pop") and not c.args:
+            if st["pop"]:
+                raise Unknown("second pop in one pass")
+            st["pop"] += 1
+            return top
+        if method_call(c, "self._steps", "append") and len(c.args) == 1:
+            v = ev(c.args[0])
+            if v is not top or st["emit"]:
+                raise AnalysisError(f"{fn.qual}: `{u(c)}` does not emit the stacked operator exactly once")
+            st["emit"] += 1
+            return None
+        if method_call(c, "self._build_stack", "append"):
+            raise _Decided("dispatch")
+        raise Unknown(u(c))
+
+    def ev(e: ast.AST) -> Any:
+        return peval(e, env, table, cur_top(), call)
+
+    def block(stmts: list[ast.stmt]) -> str:
+        for s in stmts:
+            if isinstance(s, ast.Pass) or (isinstance(s, ast.Expr) and isinstance(s.value, ast.Constant)):
+                continue
+            if isinstance(s, ast.Assign) and len(s.targets) == 1 and isinstance(s.targets[0], ast.Name):
+                env[s.targets[0].id] = ev(s.value)
+            elif isinstance(s, ast.AnnAssign) and isinstance(s.target, ast.Name):
+                if s.value is not None:
+                    env[s.target.id] = ev(s.value)
+            elif isinstance(s, ast.Expr):
+                ev(s.value)
+            elif isinstance(s, ast.If):
+                r = block(s.body) if ev(s.test) else block(s.orelse)
+                if r != "next":
+                    return r
+            elif isinstance(s, ast.While):
+                if st["loops"]:
+                    raise Unknown("a second loop")
+                if not ev(s.test):
+                    r = block(s.orelse)
+                    if r != "next":
+                        return r
+                    continue
+                st["loops"] += 1
+                r = block(s.body)
+                if r in ("break", "return"):
+                    raise _Decided("reduce-and-stop" if st["emit"] and st["pop"] else
+                                   "discard" if st["pop"] and not st["emit"] else
+                                   "shift" if not st["emit"] else "emit-without-pop")
+                if st["emit"] and st["pop"]:
+                    raise _Decided("reduce")
+                raise AnalysisError(f"{fn.qual}: a pass of the unwinding loop neither stops nor consumes the stacked operator")
+            elif isinstance(s, ast.Break):
+                return "break"
+            elif isinstance(s, ast.Continue):
+                return "continue"
+            elif isinstance(s, ast.Return):
+                return "return"
             else:
-                env[s.targets[0].id] = peval(s.value, env, table)
-        elif isinstance(s, ast.If):
-            if peval(s.test, env, table):
-                if not isinstance(s.body[-1], ast.Break) or s.orelse:
-                    raise AnalysisError(f"{fn.qual}: decision `{u(s.test)}` does not end in break")
-                pops = any(isinstance(x, ast.Call) and method_call(x, "self._build_stack", "pop")
-                           for b in s.body for x in ast.walk(b))
-                emits = any(isinstance(x, ast.Call) and method_call(x, "self._steps", "append")
-                            for b in s.body for x in ast.walk(b))
-                if emits:
-                    return "reduce-and-stop"
-                return "discard" if pops else "shift"
-        elif isinstance(s, ast.Expr):
-            continue
-        else:
-            raise AnalysisError(f"{fn.qual}: statement `{u(s)[:40]}` in the unwinding loop not recognised")
-    return "reduce"
+                raise AnalysisError(f"{fn.qual}: statement `{u(s)[:40]}` of the shift/reduce decision not recognised")
+        return "next"
+
+    try:
+        block(fn.node.body)
+        result = "dispatch"
+    except _Decided as d:
+        result = d.result
+    except Unknown as exc:
+        raise AnalysisError(f"{fn.qual}: cannot evaluate the shift/reduce decision for stack top `{prev}`, "
+                            f"incoming `{new}`: {exc}") from exc
+    if result == "dispatch":
+        # the operator is pushed (or dropped, for `)`) without the unwinding loop having run
+        if st["pop"] or st["emit"]:
+            raise AnalysisError(f"{fn.qual}: the build stack is modified outside the unwinding loop")
+        return "shift"
+    return result
 
 
 def check_prec(run: Run, prog: Program) -> None:
-    fn = prog.func(f"{ENGINE}:FormulaBuilder.push_oper")
+    fn = spliced(prog, prog.func(f"{ENGINE}:FormulaBuilder.push_oper"))
     run.analysed(fn.qual)
     table = precedence_table(prog)
     matrix = {}
@@ -212,10 +347,16 @@ def check_tab(run: Run, prog: Program) -> None:
     steps = {c.name: c for c in step_classes(prog)}
     # branches: oper == "<k>" -> self._build_stack.append(<Class>())
     branches: dict[str, str] = {}
+    pname = fn.params[1] if len(fn.params) > 1 else "oper"
     for n in ast.walk(fn.node):
-        if isinstance(n, ast.If) and isinstance(n.test, ast.Compare) and u(n.test.left) == "oper" \
-                and isinstance(n.test.ops[0], ast.Eq) and isinstance(n.test.comparators[0], ast.Constant):
-            key = n.test.comparators[0].value
+        if isinstance(n, ast.If) and isinstance(n.test, ast.Compare) and len(n.test.ops) == 1 and isinstance(n.test.ops[0], ast.Eq):
+            a, b = n.test.left, n.test.comparators[0]
+            if u(a) == pname and isinstance(b, ast.Constant):
+                key = b.value
+            elif u(b) == pname and isinstance(a, ast.Constant):
+                key = a.value
+            else:
+                continue
             calls = [c for s in n.body for c in ast.walk(s) if isinstance(c, ast.Call)
                      and method_call(c, "self._build_stack", "append")]
             if calls and isinstance(calls[0].args[0], ast.Call):
@@ -251,9 +392,42 @@ def check_tab(run: Run, prog: Program) -> None:
     run.check(emitted <= handled, "C05.TAB", fs.qual, f"from_string handles {sorted(handled)}",
               f"the tokenizer emits {sorted(emitted)} but from_string handles only {sorted(handled)}",
               node=fs.node, file=fs.file)
-    txt = u(fs.node).replace(" ", "")
-    ok = "self.push_oper(token.value)" in txt and "self.push_component_metric(int(token.value),nones_are_zeros=nones_are_zeros)" in txt \
-        and "fortokenintokenizer:" in txt.replace("\n", "")
+    ffl = Flow(prog, spliced(prog, fs))
+    src_params = [p for p in ffl.params if p != "self"]
+    loops = [n for n in ffl.cfg.nodes if n.kind == "for" and n.id in ffl.live and isinstance(n.ast.target, ast.Name)  # type: ignore[union-attr]
+             and any(o.kind == "expr" and isinstance(o.node, ast.Call) and u(o.node.func) == "Tokenizer" for o in ffl.origin(n.ast.iter, n.id))]  # type: ignore[union-attr]
+    ok = len(loops) == 1 and bool(src_params)
+    if ok:
+        lp = loops[0]
+        mk = ffl.origin1(lp.ast.iter, lp.id)  # type: ignore[union-attr]
+        targ = positional(mk.node, ["formula"]).get("formula") if mk is not None and isinstance(mk.node, ast.Call) else None
+        ok = targ is not None and all(o.kind == "param" and o.name == src_params[0] for o in ffl.origin(targ, mk.nid))  # type: ignore[union-attr]
+        region = ffl.cfg.reachable([m for m, lab in ffl.cfg.succ[lp.id] if lab == "iter"], avoid=[lp.id])
+
+        def tok_value(e: ast.AST | None, nid: int) -> bool:
+            """`<loop variable>.value`, possibly through a local."""
+            if e is None:
+                return False
+            o = ffl.origin1(e, nid)
+            return o is not None and o.kind == "expr" and isinstance(o.node, ast.Attribute) and o.node.attr == "value" \
+                and all(q.kind == "iter" and q.nid == lp.id and q.idx is None for q in ffl.origin(o.node.value, o.nid))
+
+        opers = [(n, c) for n, c in ffl.calls(lambda c: method_call(c, "self", "push_oper")) if n in region]
+        mets = [(n, c) for n, c in ffl.calls(lambda c: method_call(c, "self", "push_component_metric")) if n in region]
+        ok = ok and len(opers) == 1 and len(mets) == 1 \
+            and not any(isinstance(x, (ast.Break, ast.Continue)) for st in lp.ast.body for x in ast.walk(st))  # type: ignore[union-attr]
+        if ok:
+            (on, oc), (mn, mc) = opers[0], mets[0]
+            oparams = [p for p in prog.func(f"{ENGINE}:FormulaBuilder.push_oper").params if p != "self"]
+            mfn = prog.resolve_method(fs.cls, "push_component_metric") if fs.cls is not None else None
+            mparams = [p for p in mfn.params if p != "self"] if mfn is not None else ["component_id"]
+            oa = positional(oc, oparams)
+            ma = positional(mc, mparams)
+            cid = ma.get(mparams[0]) if mparams else None
+            naz = ma.get("nones_are_zeros")
+            ok = len(oa) == 1 and tok_value(oa.get(oparams[0]), on) \
+                and isinstance(cid, ast.Call) and u(cid.func) == "int" and len(cid.args) == 1 and tok_value(cid.args[0], mn) \
+                and naz is not None and all(o.kind == "param" and o.name == "nones_are_zeros" for o in ffl.origin(naz, mn))
     run.check(ok, "C05.TAB", fs.qual, "every token pushed in order",
               "tokens are not pushed one by one in input order with their own value", node=fs.node, file=fs.file)
     # HO builders handle what _push can emit
@@ -281,7 +455,7 @@ def check_step(run: Run, prog: Program) -> None:
         key = repr_const(cls)
         if key not in ("+", "-", "*", "/", "max", "min", "consumption", "production"):
             continue
-        fn = cls.methods["apply"]
+        fn = spliced(prog, cls.methods["apply"])
         n += 1
         interp = NanInterp(_self_fields)
         param = fn.params[1]
@@ -417,7 +591,7 @@ class HOInterp(Interp):
 
 
 def check_paren(run: Run, prog: Program) -> None:
-    push = prog.func(f"{ENGINE}:_BaseHOFormulaBuilder._push")
+    push = spliced(prog, prog.func(f"{ENGINE}:_BaseHOFormulaBuilder._push"))
     run.analysed(push.qual)
     mod = prog.module(ENGINE)
     OP = lambda s: ("TT.OPER", s)  # noqa: E731
@@ -464,7 +638,7 @@ def check_paren(run: Run, prog: Program) -> None:
                           "otherwise the flattened token stream regroups under operator precedence",
                           node=push.node, file=push.file, instance=f"_push('{oper}', {name})")
     for fname in ("consumption", "production"):
-        fn = prog.func(f"{ENGINE}:_BaseHOFormulaBuilder.{fname}")
+        fn = spliced(prog, prog.func(f"{ENGINE}:_BaseHOFormulaBuilder.{fname}"))
         run.analysed(fn.qual)
         it = HOInterp(prog, mod)
         selfs2: list[Obj] = []
@@ -490,7 +664,10 @@ def check_paren(run: Run, prog: Program) -> None:
                       ("max", "max"), ("min", "min")):
         m = cls.methods[meth]
         rets = [r for r in body_walk(m.node) if isinstance(r, ast.Return)]
-        ok = len(rets) == 1 and u(rets[0].value).replace("'", '"') == f'self._push("{sym}", {m.params[1]})'
+        rv = rets[0].value if len(rets) == 1 else None
+        pa = positional(rv, ["oper", "other"]) if isinstance(rv, ast.Call) and method_call(rv, "self", "_push") else {}
+        ok = len(pa) == 2 and isinstance(pa["oper"], ast.Constant) and pa["oper"].value == sym and u(pa["other"]) == m.params[1] \
+            and len(rv.args) + len(rv.keywords) == 2  # type: ignore[union-attr]
         run.check(ok, "C05.PAREN", m.qual, f"{meth} -> _push('{sym}', other)",
                   f"`{meth}` does not push the operator `{sym}` with its operand", node=m.node, file=m.file)
     # the engine-level operators start a builder with the engine as left operand
@@ -624,28 +801,65 @@ def check_eval(run: Run, prog: Program) -> None:
               path=cfg.describe_path(wit))
     fin = prog.func(f"{ENGINE}:FormulaBuilder.finalize")
     run.analysed(fin.qual)
-    txt = u(fin.node).replace(" ", "").replace("\n", "")
-    ok = "whileself._build_stack:self._steps.append(self._build_stack.pop())" in txt and \
-        "returnself._steps,self._metric_fetchers" in txt.replace("(", "").replace(")", "")
+    nfl = Flow(prog, spliced(prog, fin))
+    whiles = [n for n in nfl.cfg.nodes if n.kind == "while" and n.id in nfl.live
+              and canon(n.ast.test) in (("truthy", "self._build_stack"), ("not", ("==", frozenset({"len(self._build_stack)", "0"}))))]  # type: ignore[union-attr]
+    ok = len(whiles) == 1
+    if ok:
+        w = whiles[0]
+        reg = nfl.cfg.reachable([m for m, lab in nfl.cfg.succ[w.id] if lab == "true"], avoid=[w.id])
+        pops = [(n, c) for n, c in nfl.calls(lambda c: method_call(c, "self._build_stack", "pop")) if n in reg]
+        apps = [(n, c) for n, c in nfl.calls(lambda c: method_call(c, "self._steps", "append")) if n in reg]
+        others = [c for n, c in nfl.calls(lambda c: isinstance(c.func, ast.Attribute) and u(c.func.value) in (
+            "self._build_stack", "self._steps")) if not any(c is x for _n, x in pops + apps)]
+        ok = len(pops) == 1 and len(apps) == 1 and not pops[0][1].args and not pops[0][1].keywords and not others \
+            and len(apps[0][1].args) == 1 and nfl.is_node(apps[0][1].args[0], pops[0][1], apps[0][0]) \
+            and not any(isinstance(x, (ast.Break, ast.Continue, ast.Return)) for st in w.ast.body for x in ast.walk(st)) \
+            and nfl.cfg.path(nfl.cfg.entry, [nfl.cfg.exit], avoid=[w.id]) is None  # type: ignore[union-attr]
+        rets = nfl.returns()
+        for r in rets:
+            v = nfl.cfg.nodes[r].ast.value  # type: ignore[union-attr]
+            o = nfl.origin1(v, r) if v is not None else None
+            t = o.node if o is not None and o.kind == "expr" else None
+            ok = ok and isinstance(t, ast.Tuple) and [u(x) for x in t.elts] == ["self._steps", "self._metric_fetchers"]
+        ok = ok and bool(rets)
     run.check(ok, "C05.EVAL", fin.qual, "drain the operator stack LIFO",
               "finalize() does not move the remaining operators to the output in LIFO order",
               node=fin.node, file=fin.file)
     pm = prog.func(f"{ENGINE}:FormulaBuilder.push_metric")
     run.analysed(pm.qual)
-    sd = find_calls(pm.node, lambda c: method_call(c, "self._metric_fetchers", "setdefault"))
-    ok = len(sd) == 1 and u(sd[0].args[0]) == pm.params[1]
+    pfl = Flow(prog, spliced(prog, pm))
+    sd = pfl.calls(lambda c: method_call(c, "self._metric_fetchers", "setdefault"))
+    apps = pfl.calls(lambda c: method_call(c, "self._steps", "append"))
+    ok = len(sd) == 1 and len(apps) == 1 and len(apps[0][1].args) == 1
     if ok:
-        tgt = None
-        for s in body_walk(pm.node):
-            if isinstance(s, ast.Assign) and s.value is sd[0]:
-                tgt = u(s.targets[0])
-        apps = find_calls(pm.node, lambda c: method_call(c, "self._steps", "append"))
-        ok = tgt is not None and len(apps) == 1 and u(apps[0].args[0]) == tgt
+        sn, sc = sd[0]
+        sa = positional(sc, ["key", "default"])
+        mk = pfl.origin1(sa["default"], sn) if "default" in sa else None
+        # one fetcher per name: keyed by the metric's name, a fresh MetricFetcher only as the default,
+        # and what is appended to the steps is whatever the table then holds
+        ok = "key" in sa and all(o.kind == "param" and o.name == pm.params[1] for o in pfl.origin(sa["key"], sn)) \
+            and mk is not None and mk.kind == "expr" and isinstance(mk.node, ast.Call) and u(mk.node.func).split("[")[0] == "MetricFetcher" \
+            and pfl.is_node(apps[0][1].args[0], sc, apps[0][0]) \
+            and not [c for _n, c in pfl.calls(lambda c: isinstance(c.func, ast.Attribute) and u(c.func.value) == "self._metric_fetchers") if c is not sc] \
+            and not [x for x in ast.walk(pfl.fn.node) if isinstance(x, ast.Subscript) and u(x.value) == "self._metric_fetchers"
+                     and isinstance(x.ctx, (ast.Store, ast.Del))]
     run.check(ok, "C05.EVAL", pm.qual, "fetcher = fetchers.setdefault(name, ...); steps.append(fetcher)",
               "a metric used twice does not share one fetcher (its stream would be read twice per round)",
               node=pm.node, file=pm.file)
     pc = prog.func(f"{ENGINE}:FormulaBuilder.push_constant")
-    ok = u(pc.node.body[-1]).replace(" ", "") == f"self._steps.append(ConstantValue({pc.params[1]}))"
+    cfl = Flow(prog, spliced(prog, pc))
+    apps = cfl.calls(lambda c: isinstance(c.func, ast.Attribute) and u(c.func.value) in ("self._steps", "self._build_stack"))
+    ok = len(apps) == 1 and method_call(apps[0][1], "self._steps", "append") and len(apps[0][1].args) == 1 \
+        and cfl.cfg.path(cfl.cfg.entry, [cfl.cfg.exit], avoid=[apps[0][0]], edge_ok=lambda a, b, lab: not lab.startswith("exc:")) is None
+    if ok:
+        o = cfl.origin1(apps[0][1].args[0], apps[0][0])
+        c = o.node if o is not None and o.kind == "expr" else None
+        ok = isinstance(c, ast.Call) and u(c.func) == "ConstantValue" and len(c.args) + len(c.keywords) == 1
+        if ok:
+            assert isinstance(c, ast.Call) and o is not None
+            arg = positional(c, ["value"]).get("value")
+            ok = arg is not None and all(q.kind == "param" and q.name == pc.params[1] for q in cfl.origin(arg, o.nid))
     run.check(ok, "C05.EVAL", pc.qual, "constants go straight to the output",
               "a constant operand is not emitted in place", node=pc.node, file=pc.file)
 
@@ -663,7 +877,7 @@ def check_model(run: Run, prog: Program, seed: int, max_ops: int = 4) -> None:
     import random
     from fractions import Fraction
 
-    fn = prog.func(f"{ENGINE}:FormulaBuilder.push_oper")
+    fn = spliced(prog, prog.func(f"{ENGINE}:FormulaBuilder.push_oper"))
     table = precedence_table(prog)
     cache: dict[tuple[str, str], str] = {}
 
